@@ -43,6 +43,7 @@ type LoopSpec struct {
 	Invariants []Clause
 	Decreases  *Clause
 	Modifies   []string
+	Allocs     []string
 }
 
 type Contract struct {
@@ -183,6 +184,8 @@ func parseContractFile(P *Program, pkg *packages.Package, f *ast.File, name stri
 					cur.loop(n).Decreases = &cl
 				case "modifies":
 					cur.loop(n).Modifies = append(cur.loop(n).Modifies, parseNameList(r3)...)
+				case "allocs":
+					cur.loop(n).Allocs = append(cur.loop(n).Allocs, parseNameList(r3)...)
 				default:
 					return fail(fmt.Errorf("unknown loop clause %q", w2))
 				}
